@@ -323,7 +323,7 @@ Print Assumptions vm_refines_ref_F2_partial.
 (* ---- values that flow through tests, concat and apply (round 4) ---- *)
 
 (* every float is true, 0.0 included: cond / and / or / not / the test of a for loop all go through truthy *)
-Theorem float_is_true : forall h, truthy (VFlt h) = true.
+Theorem float_is_true : forall m e, truthy (VFlt m e) = true.
 Proof. exact RefSemProofs.float_is_true_ref. Qed.
 
 (* concat of two or more lists is the list of all elements in order; lists are values, so no argument
@@ -343,12 +343,51 @@ Theorem apply_passes_list : forall ap f v l s, is_fn f = true ->
   prim_apply ap PApply [f; list_val (v :: l)] s = ap f (v :: l) s.
 Proof. exact RefSemProofs.apply_passes_list_ref. Qed.
 
+(* integer division (round 5): decided by C07's model Num.int_do; exact -> integer, inexact -> never an integer *)
+Theorem div_is_int_do : forall ap a b s, (b =? 0) = false ->
+  prim_apply ap PDiv [VInt a; VInt b] s =
+  match int_do OpDiv a b with
+  | Ok (NInt z) => (Done (VInt z), s)
+  | Ok (NFloat f) => match flt_of_f64 f with
+                     | Some me => (Done (VFlt (fst me) (snd me)), s)
+                     | None => (Sig (SErr EUnspec), s)
+                     end
+  | _ => (Sig (SErr EOther), s)
+  end.
+Proof. exact RefSemProofs.div_ref. Qed.
+Theorem div_exact : forall ap a b s, (b =? 0) = false -> Z.rem a b = 0 ->
+  prim_apply ap PDiv [VInt a; VInt b] s = (Done (VInt (wrap64 (Z.quot a b))), s).
+Proof. exact RefSemProofs.div_exact_ref. Qed.
+Theorem div_inexact_not_int : forall ap a b s z, (b =? 0) = false -> Z.rem a b <> 0 ->
+  fst (prim_apply ap PDiv [VInt a; VInt b] s) <> Done (VInt z).
+Proof. exact RefSemProofs.div_inexact_not_int_ref. Qed.
+Print Assumptions div_inexact_not_int.
+
+(* characters appended to strings as UTF-8 *)
+Theorem concat_str_chr : forall ap s0 c t s,
+  prim_apply ap PConcat [VStr s0; VChr c; VStr t] s = (Done (VStr ((s0 ++ utf8 c) ++ t)), s) /\
+  prim_apply ap PAppend [VStr s0; VChr c] s = (Done (VStr (s0 ++ utf8 c)), s).
+Proof. exact RefSemProofs.concat_str_chr_ref. Qed.
+
+(* (/ 9223372036854775807 2) is the float 2^62; (/ 7 2) = 3.5 = 7 * 2^-1; (/ 6 3) = 2 *)
+Example ex_div :
+  o_res (eval_program 50 [ECall (EVar 14) [ECall (EVar 25) [EInt 9223372036854775807; EInt 2];
+                                          ECall (EVar 25) [EInt 7; EInt 2]; ECall (EVar 25) [EInt 6; EInt 3]]])
+  = Done (SvPair (SvFlt 1 62) (SvPair (SvFlt 7 (-1)) (SvPair (SvInt 2) SvNil))).
+Proof. vm_compute. reflexivity. Qed.
+
+(* (concat "ab" 'e-acute' 'U+1F600') = "ab" ++ C3 A9 ++ F0 9F 98 80 *)
+Example ex_concat_chars :
+  o_res (eval_program 50 [ECall (EVar 24) [EStr [97; 98]; EQuote (DChr 233); EQuote (DChr 128512)]])
+  = Done (SvStr [97; 98; 195; 169; 240; 159; 152; 128]).
+Proof. vm_compute. reflexivity. Qed.
+
 (* (list (and 0.0 7) (or 0.0 7) (not 0.0) (cond 0.0 1 2)) = (7 0.0 false 1) *)
 Example ex_float_zero_true :
   o_res (eval_program 50 [ECall (EVar 14) [EAnd [EQuote (DFlt 0); EInt 7]; EOr [EQuote (DFlt 0); EInt 7];
                                           ECall (EVar 10) [EQuote (DFlt 0)];
                                           ECond [(EQuote (DFlt 0), EInt 1)] (EInt 2)]])
-  = Done (SvPair (SvInt 7) (SvPair (SvFlt 0) (SvPair (SvBool false) (SvPair (SvInt 1) SvNil)))).
+  = Done (SvPair (SvInt 7) (SvPair (SvFlt 0 0) (SvPair (SvBool false) (SvPair (SvInt 1) SvNil)))).
 Proof. vm_compute. reflexivity. Qed.
 
 (* (def b (quote (3 4))) (concat (quote (1 2)) b (quote (5))) b  leaves b = (3 4) *)
